@@ -20,7 +20,7 @@ from onnx import helper as oh
 from onnx import numpy_helper as nh
 
 OPSETS = [11, 13, 18]
-KINDS = ["unsqueeze", "squeeze", "reducesum", "reducemax", "split", "softmax", "add_f", "add_i", "cast", "clip"]
+KINDS = ["unsqueeze", "squeeze", "reducesum", "reducemax", "split", "softmax", "add_f", "add_i", "cast", "clip", "dropout", "shape"]
 
 
 def _model(kind: str, opset: int) -> onnx.ModelProto:
@@ -66,7 +66,17 @@ def _model(kind: str, opset: int) -> onnx.ModelProto:
         inits.append(nh.from_array(np.array(1, dtype=np.float32), "hi"))
         nodes.append(N("Clip", ["c", "lo", "hi"], ["k"]))
         out_shape = [1, 2, 3]
-    nodes.append(N("Mul", ["x", "k"], ["y"]))
+    elif kind == "dropout":
+        # input-dependent Dropout: only the optimizer's version-ranged partial evaluator (opset >= 12) can remove it
+        nodes.append(N("Dropout", ["x"], ["d"]))
+        nodes.append(N("Mul", ["d", "c"], ["y"]))
+        out_shape = [1, 2, 3]
+    elif kind == "shape":
+        nodes.append(N("Shape", ["x"], ["s"]))
+        nodes.append(N("Cast", ["s"], ["k"], to=TP.FLOAT))
+        out_shape = [1, 2, 3]
+    if kind != "dropout":
+        nodes.append(N("Mul", ["x", "k"], ["y"]))
     g = oh.make_graph(nodes, f"{kind}_{opset}", [oh.make_tensor_value_info("x", TP.FLOAT, out_shape)],
                       [oh.make_tensor_value_info("y", TP.FLOAT, out_shape)], inits)
     return oh.make_model(g, opset_imports=[oh.make_opsetid("", opset)], ir_version=8)
@@ -221,13 +231,65 @@ def _pick(v, lo, hi):
     raise AssertionError("out of the stated range")
 
 
+_WARM = [False]
+
+
+def _warm_imports():
+    """import (only import) what the transformations use, so that a forked child does not pay for it on every path"""
+    if _WARM[0]:
+        return
+    _WARM[0] = True
+    import importlib
+    for m in ("onnxscript", "onnxscript.optimizer", "onnxscript.optimizer._constant_folding", "onnxscript.version_converter",
+              "onnxscript.backend.onnx_export", "onnxscript.rewriter", "onnxscript.rewriter.rules.common", "onnx.reference",
+              "onnx.reference.ops._op_list", "onnx.shape_inference", "onnx_ir.passes.common"):
+        try:
+            importlib.import_module(m)
+        except Exception:  # noqa: BLE001
+            pass
+
+
+def _isolated_history(ti: int, hs, tg) -> bool:
+    """Run one history in a forked child: the property is about what earlier work in the SAME process leaves behind, so every
+    solver-decided path must start from the state of a process that has only imported the library -- not from what the paths
+    explored before it in this worker left behind (a counterexample would then not be replayable from its own history)."""
+    global LAST_OBSERVED
+    baselines()  # cached in the parent: the child must not recompute them
+    _warm_imports()
+    r, w = os.pipe()
+    pid = os.fork()
+    if pid == 0:
+        code = 1
+        try:
+            os.close(r)
+            ok = run_history(ti, hs, tg)
+            os.write(w, json.dumps({"ok": bool(ok), "observed": LAST_OBSERVED}).encode())
+            code = 0
+        finally:
+            os._exit(code)
+    os.close(w)
+    chunks = []
+    while True:
+        b = os.read(r, 65536)
+        if not b:
+            break
+        chunks.append(b)
+    os.close(r)
+    os.waitpid(pid, 0)
+    if not chunks:
+        raise RuntimeError(f"history child produced no result for transformation {TRANSFORMS[ti]} history {hs} target {tg}")
+    out = json.loads(b"".join(chunks).decode())
+    LAST_OBSERVED = out["observed"]
+    return out["ok"]
+
+
 def history_prop(ti: int, hist: List[int], target: int) -> bool:
     n = len(table(TRANSFORMS[ti]))
     hs = [_pick(h, 0, n - 1) for h in hist]
     tg = _pick(target, 0, n - 1)
     from crosshair.tracers import NoTracing
     with NoTracing():
-        return run_history(ti, hs, tg)
+        return _isolated_history(ti, hs, tg)
 
 
 def _ob(ti, hlen, first_opset=None, tiers=("quick", "thorough")):
